@@ -176,6 +176,8 @@ CATALOGUE = {
     # compound assignment: the variable keeps its declared kind, also when that is optional or an alias
     "opassign_optional_target_bool": [("assign", "pend", V("in0"), "int?"), ("opassign", "pend", "+", ("bool", True))] + probe(V("pend")),
     "opassign_optional_target_str": [("assign", "pend", V("in0"), "int?"), ("opassign", "pend", "-", S("x"))] + probe(V("pend")),
+    "opassign_optional_target_bigint": [("assign", "pend", I(2), "int?"), ("opassign", "pend", "+", ("big", 5))] + probe(V("pend")),
+    "opassign_int_target_bigint": [("assign", "cnt", I(2)), ("opassign", "cnt", "*", ("big", 5))] + probe(V("cnt")),
     "opassign_bool_target": [("assign", "fl", B("==", V("in0"), I(1))), ("opassign", "fl", "+", I(1))] + probe(V("fl")),
     # classes
     "field_wrong_type": [("class", "K", [("n", "int")], [("a", "int")], [("setfield", V("self"), "n", V("a"))], [("bad", [], None, [("setfield", V("self"), "n", S("s"))]), ("get", [], "int", [("return", ("field", V("self"), "n"))])]),
